@@ -359,6 +359,80 @@ Definition enc_LcSlotKey (v : N) : res bytes := Ok (u64_enc v).
 Definition dec_LcSlotKey (buf : bytes) : res N :=
   if negb (nlen buf =? 8) then Err E_SIZE else bind (slice buf 0 8) read_u64.
 
+
+(* ------------------------------------------------------------------ part 5: history block bodies and the epoch accumulator (fastssz)
+   history/types.go + types_encoding.go *)
+Definition L_Txs : N := 16384.
+Definition L_Tx : N := 16777216.
+Definition L_Uncles : N := 131072.
+Definition L_Withdrawals : N := 16.
+Definition L_Withdrawal : N := 192.
+
+(* size of the encoding of a list of variable-size items: 4 bytes of offset per item plus the items *)
+Fixpoint items_total (l : list bytes) : N := match l with [] => 0 | x :: r => nlen x + items_total r end.
+Definition dyn_size (l : list bytes) : N := 4 * nlen l + items_total l.
+
+(* BlockBodyLegacy : Transactions [][]byte ssz-max:"16384,16777216", Uncles []byte ssz-max:"131072"
+   (the two field offsets are written first; WriteOffset truncates to uint32) *)
+Definition enc_BodyLegacy (v : list bytes * bytes) : res bytes :=
+  let '(txs, uncles) := v in
+  let dst := u32_enc 8 ++ u32_enc (8 + dyn_size txs) in
+  bind (enc_dyn_list L_Txs L_Tx txs) (fun t =>
+  bind (enc_bytes_max L_Uncles uncles) (fun u => Ok (dst ++ t ++ u))).
+Definition dec_BodyLegacy (strict : bool) (buf : bytes) : res (list bytes * bytes) :=
+  let size := nlen buf in
+  if size <? 8 then Err E_SIZE
+  else
+    bind (read_offset_at buf 0) (fun o0 =>
+    if size <? o0 then Err E_OFFSET
+    else if negb (o0 =? 8) then Err E_VAROFF
+    else
+      bind (read_offset_at buf 4) (fun o1 =>
+      if (size <? o1) || (o1 <? o0) then Err E_OFFSET
+      else
+        bind (bind (between buf o0 o1) (fun t => dec_dyn_list strict t L_Txs (item_bytes_max L_Tx))) (fun txs =>
+        bind (bind (tail_from buf o1) (dec_bytes_max L_Uncles)) (fun uncles => Ok (txs, uncles))))).
+
+(* PortalBlockBodyShanghai : Transactions, Uncles, Withdrawals [][]byte ssz-max:"16,192" *)
+Definition enc_BodyShanghai (v : list bytes * bytes * list bytes) : res bytes :=
+  let '(txs, uncles, ws) := v in
+  let dst := u32_enc 12 ++ u32_enc (12 + dyn_size txs) ++ u32_enc (12 + dyn_size txs + nlen uncles) in
+  bind (enc_dyn_list L_Txs L_Tx txs) (fun t =>
+  bind (enc_bytes_max L_Uncles uncles) (fun u =>
+  bind (enc_dyn_list L_Withdrawals L_Withdrawal ws) (fun w => Ok (dst ++ t ++ u ++ w)))).
+Definition dec_BodyShanghai (strict : bool) (buf : bytes) : res (list bytes * bytes * list bytes) :=
+  let size := nlen buf in
+  if size <? 12 then Err E_SIZE
+  else
+    bind (read_offset_at buf 0) (fun o0 =>
+    if size <? o0 then Err E_OFFSET
+    else if negb (o0 =? 12) then Err E_VAROFF
+    else
+      bind (read_offset_at buf 4) (fun o1 =>
+      if (size <? o1) || (o1 <? o0) then Err E_OFFSET
+      else
+        bind (read_offset_at buf 8) (fun o2 =>
+        if (size <? o2) || (o2 <? o1) then Err E_OFFSET
+        else
+          bind (bind (between buf o0 o1) (fun t => dec_dyn_list strict t L_Txs (item_bytes_max L_Tx))) (fun txs =>
+          bind (bind (between buf o1 o2) (dec_bytes_max L_Uncles)) (fun uncles =>
+          bind (bind (tail_from buf o2) (fun t => dec_dyn_list strict t L_Withdrawals (item_bytes_max L_Withdrawal))) (fun ws =>
+          Ok (txs, uncles, ws))))))).
+
+(* EpochAccumulator : HeaderRecords [][]byte ssz-size:"8192,64".
+   buf[0:524288][ii*64:(ii+1)*64] for ii < 8192, written as a walk over the buffer (linear in the extracted model) *)
+Fixpoint split_chunks (k n : nat) (buf : bytes) : res (list bytes) :=
+  match k with
+  | O => Ok []
+  | S k' =>
+      let c := firstn n buf in
+      if (length c <? n)%nat then Panic
+      else bind (split_chunks k' n (skipn n buf)) (fun r => Ok (c :: r))
+  end.
+Definition enc_EpochAcc (v : list bytes) : res bytes := enc_vector 8192 64 v.
+Definition dec_EpochAcc (buf : bytes) : res (list bytes) :=
+  if negb (nlen buf =? 524288) then Err E_SIZE else split_chunks (N.to_nat 8192) 64 buf.
+
 (* ------------------------------------------------------------------ what the code does today *)
 (* As found: false / false / true.  The values below are those of the tree with fixes/C14-*.diff applied. *)
 Definition code_strict_zero_offset : bool := true.    (* false: dec_dyn_list accepts 00000000 as the empty list *)
@@ -371,7 +445,8 @@ Inductive ty : Type :=
 | TClientInfo | TBasicRadius | THistoryRadius | TErrorPayload | TCapabilities
 | THashesAcc | TProofRoots | TProofCapella | TProofDeneb | THeaderWithProof | TFindEphKey | TEphPayload | TOfferEphKey
 | TOfferEphHeader | TReceipts | THeaderRecord
-| TLcUpdateKey | TLcBootstrapKey | TLcFinalityKey | TLcOptimisticKey.
+| TLcUpdateKey | TLcBootstrapKey | TLcFinalityKey | TLcOptimisticKey
+| TBodyLegacy | TBodyShanghai | TEpochAcc.
 
 Definition schema (t : ty) : list kind :=
   match t with
@@ -399,6 +474,9 @@ Definition schema (t : ty) : list kind :=
   | TLcUpdateKey => [KN; KN]
   | TLcBootstrapKey => [KB]
   | TLcFinalityKey | TLcOptimisticKey => [KN]
+  | TBodyLegacy => [KL; KB]
+  | TBodyShanghai => [KL; KB; KL]
+  | TEpochAcc => [KL]
   end.
 
 Definition rmap {A B} (f : A -> B) (r : res A) : res B := bind r (fun a => Ok (f a)).
@@ -436,6 +514,9 @@ Definition enc_any (t : ty) (fs : list field) : res bytes :=
   | TLcBootstrapKey, [FB h] => enc_LcBootstrapKey h
   | TLcFinalityKey, [FN n] => enc_LcSlotKey n
   | TLcOptimisticKey, [FN n] => enc_LcSlotKey n
+  | TBodyLegacy, [FL t; FB u] => enc_BodyLegacy (t, u)
+  | TBodyShanghai, [FL t; FB u; FL w] => enc_BodyShanghai (t, u, w)
+  | TEpochAcc, [FL l] => enc_EpochAcc l
   | _, _ => Err E_SHAPE
   end.
 
@@ -474,6 +555,9 @@ Definition dec_any (zs fs rej : bool) (t : ty) (b : bytes) : res (list field) :=
   | TLcBootstrapKey => rmap (fun h => [FB h]) (dec_LcBootstrapKey b)
   | TLcFinalityKey => rmap (fun n => [FN n]) (dec_LcSlotKey b)
   | TLcOptimisticKey => rmap (fun n => [FN n]) (dec_LcSlotKey b)
+  | TBodyLegacy => rmap (fun '(t, u) => [FL t; FB u]) (dec_BodyLegacy zs b)
+  | TBodyShanghai => rmap (fun '(t, u, w) => [FL t; FB u; FL w]) (dec_BodyShanghai zs b)
+  | TEpochAcc => rmap (fun l => [FL l]) (dec_EpochAcc b)
   end.
 
 (* the decoder the code has today *)
@@ -524,6 +608,10 @@ Definition limits_any (t : ty) (fs : list field) : list bool :=
   | TLcUpdateKey, [FN a; FN c] => [true; true]
   | TLcBootstrapKey, [FB h] => [nlen h =? 32]
   | TLcFinalityKey, [FN n] | TLcOptimisticKey, [FN n] => [true]
+  | TBodyLegacy, [FL t; FB u] => [(nlen t <=? L_Txs) && all_len_le L_Tx t; len_le L_Uncles u]
+  | TBodyShanghai, [FL t; FB u; FL w] =>
+      [(nlen t <=? L_Txs) && all_len_le L_Tx t; len_le L_Uncles u; (nlen w <=? L_Withdrawals) && all_len_le L_Withdrawal w]
+  | TEpochAcc, [FL l] => [(nlen l =? 8192) && all_len_eq 64 l]
   | _, _ => [false]
   end.
 
